@@ -60,6 +60,8 @@ fn main() {
         "find-c01" => find2::gen_c01(&mut w, &tier, seed),
         "find-c02" => find2::gen_c02(&mut w, &tier, seed),
         "find-c03" => find2::gen_c03(&mut w, &tier, seed),
+        "find-c05" => find2::gen_c05(&mut w, &tier, seed),
+        "find-c07" => find2::gen_c07(&mut w, &tier, seed),
         "find-c11" => find2::gen_c11(&mut w, &tier, seed),
         "find-c14" => find2::gen_c14(&mut w, &tier, seed),
         "find-c15" => find2::gen_c15(&mut w, &tier, seed),
